@@ -290,8 +290,10 @@ func c15JudgeChain(chain []*c15Cert, t time.Time, roots map[int]bool) (class, wh
 			if m.pathLen >= 0 && i-1 > m.pathLen {
 				return "chain-exceeds-pathlen", fmt.Sprintf("certificate #%d (%q) has pathLenConstraint %d but %d intermediate certificates follow it", m.idx, m.cn, m.pathLen, i-1)
 			}
-			if ok, why := c15NamesAllowed(m, chain[0].dns); !ok {
-				return "chain-violates-name-constraints", why
+			for _, below := range chain[:i] {
+				if ok, why := c15NamesAllowed(m, below.dns); !ok {
+					return "chain-violates-name-constraints", why
+				}
 			}
 		}
 	}
